@@ -87,8 +87,9 @@ def main():
         "wall_s": round(time.time() - ctx.t0, 2),
         "violations": len(real),
     }
-    os.makedirs(os.path.join(ROOT, "evidence"), exist_ok=True)
-    with open(os.path.join(ROOT, "evidence", a.pid + ".json"), "w") as f:
+    evdir = os.environ.get("VERIF_EVIDENCE_DIR") or os.path.join(ROOT, "evidence")   # seedtest redirects this
+    os.makedirs(evdir, exist_ok=True)
+    with open(os.path.join(evdir, a.pid + ".json"), "w") as f:
         json.dump(ev, f, indent=1, default=str)
     print(f"{a.pid} tier={tier} obligations={cov['discharged']}/{cov['obligations']} cases={ctx.cases} "
           f"distinct_nontrivial={len(ctx.nontrivial)} violations={len(real)} known={len(kf)} wall={ev['wall_s']}s")
